@@ -7,13 +7,27 @@ Streams
   class-table-triples  the same for EVERY class of the regenerated class table in the generic object
                        format: stock classes, their abstract bases, `NaN(data_type)`, the user
                        hierarchies of harness/c01_classes.py (decorated / undecorated legacy / mixed,
-                       2-3 levels), Polynomial / Rational (own `__eq__`: model abstains)
+                       2-3 levels), Polynomial / Rational / SubPoly / SubRat (hand-written `__eq__`:
+                       answered by `ownEq` / `hashX`, lean/PV/Model/EqHashOwn.lean)
+  own-eq-triples       pairs / triples over Rational, SubRat, Polynomial, SubPoly instances
+                       (unnormalised and nested fractions, polynomials over fractions), numbers,
+                       strings / None / tuples, ordinary nodes, and the same below ordinary parents:
+                       `==`, `!=`, hash equality of equal values and dict lookup of the real objects
+                       vs the Lean model of the hand-written methods inside CPython's `==` dispatch,
+                       run on the records extract/classes.py reads from the methods' SOURCE
+  rational-init        what `Rational(numerator, denominator)` stores or raises vs `rationalInit`
   setattr-delattr      `setattr` / `delattr` on every field of every class (and on a non-field name)
   histories            random histories of hash / == / != / in / dict insert / dict lookup / copies
                        (`dataclasses.replace`, re-construction from `__getinitargs__`, a rebuilding
                        mapper) / IdentityMapper / rebuild / pickle round trip / setattr / delattr on
                        a pool of objects: every answer and the `_hash_value` slot pattern after every
                        step vs the Lean history model
+  interpreter-modes    two worker processes (default mode, `python -O`; harness/c01_worker.py):
+                       setattr / delattr on every field of every class in both modes vs `frozenFor`
+                       on `ClassTable.inMode` (the decorator's `frozen=` keyword is read from source);
+                       histories under -O (a rebinding that goes through and the stale cached hash
+                       it leaves; random ones without rebinding) vs `run1D … false`; `==` / `!=` /
+                       hash equality and the hash VALUES of untouched objects agree between the modes
 
 Oracles (independent of the code under test): `harness/c01_classes.struct_eq` is the property's own
 sentence ("same node class and pairwise-equal fields") written with `type(a) is type(b)` and
@@ -96,6 +110,8 @@ def special_instances(cls):
     if cls is Rational:
         return [Rational(X, 2), Rational(X, 3), Rational(Y, 2), Rational(X, 1), Rational(3, 4),
                 Rational(p.Sum((X, 1)), 5)]
+    if cls is C.SubRat:
+        return [C.SubRat(X, 2), C.SubRat(X, 3), C.SubRat(Y, 2), C.SubRat(X, 1), C.SubRat(3, 4)]
     return None
 
 
@@ -153,7 +169,7 @@ def eq_variant(rng, s, prob=0.5):
     if h == "inst":
         if s[1] in ("Variable", "MVar", "LegacyVar", "DotWildcard", "StarWildcard", "Lookup",
                     "Derivative", "Substitution", "CommonSubexpression", "Comparison", "Labelled",
-                    "Polynomial", "SubPoly", "Rational", "NaN"):
+                    "Polynomial", "SubPoly", "Rational", "SubRat", "NaN"):
             # classes with string / exponent fields: only the expression-valued first field varies
             if s[1] in ("Lookup", "Derivative", "Substitution", "CommonSubexpression"):
                 return [h, s[1], s[2], [eq_variant(rng, s[3][0], prob)] + s[3][1:]]
@@ -282,9 +298,9 @@ def culprit(o):
     return qn
 
 
-def deep_culprit(a, b):
-    """the `__eq__` to blame when `a == b` differs from structural equality: the innermost pair of
-    corresponding parts on which `==` and structural equality disagree"""
+def deep_pair(a, b):
+    """the innermost pair of corresponding parts of `a` and `b` on which `==` and structural
+    equality disagree (the pair itself when no part does)"""
     def parts(x, y):
         if isinstance(x, p.Expression) and isinstance(y, p.Expression) and type(x) is type(y):
             fx, fy = C.fields_of(x), C.fields_of(y)
@@ -300,14 +316,119 @@ def deep_culprit(a, b):
         except Exception:       # noqa: BLE001
             bad = False
         if bad:
-            return deep_culprit(x, y)
-    return culprit(a) if isinstance(a, p.Expression) else type(a).__name__
+            return deep_pair(x, y)
+    return a, b
+
+
+# what the hand-written `__eq__` of the stock legacy classes is KNOWN to ignore (known findings
+# `eq-not-structural:<method>`): a pair that is `==` although it differs in anything else gets a
+# key of its own
+OWN_INIT_ARGS = {"Polynomial": ("Base", "Data", "Unit", "VarLess"), "Rational": ("Numerator", "Denominator")}
+KNOWN_IGNORED = {"Polynomial.__eq__": {"class", "Unit", "VarLess"}, "Rational.__eq__": {"class"}}
+
+
+def _eq_either_way(u, v):
+    try:
+        return bool(u == v) or bool(v == u)
+    except Exception:       # noqa: BLE001
+        return False
+
+
+def ignored_aspects(x, y):
+    """in what two values that compare `==` differ: 'class', and the init args that are neither
+    structurally equal nor `==` to each other (an init arg that is `==` through a deviation further
+    down was compared, not ignored)"""
+    asp = set()
+    if type(x) is not type(y):
+        asp.add("class")
+    if isinstance(x, p.Expression) and isinstance(y, p.Expression):
+        for base, names in OWN_INIT_ARGS.items():
+            if all(any(c.__name__ == base for c in type(o).__mro__) for o in (x, y)):
+                fx, fy = C.fields_of(x), C.fields_of(y)
+                if len(fx) == len(fy) == len(names):
+                    asp |= {n for n, u, v in zip(names, fx, fy)
+                            if not C.struct_eq(u, v) and not _eq_either_way(u, v)}
+    return asp
+
+
+def deep_culprit(a, b):
+    """the `__eq__` to blame when `a == b` differs from structural equality (the one answering for
+    the innermost disagreeing pair), refined by what it ignored when that is not a known deviation"""
+    x, y = deep_pair(a, b)
+    if isinstance(x, p.Expression):
+        name = culprit(x)
+    elif isinstance(y, p.Expression):
+        name = culprit(y)       # a builtin left operand hands over to the reflected method
+    else:
+        return type(x).__name__
+    if name in KNOWN_IGNORED:
+        try:
+            equal = bool(x == y)
+        except Exception:       # noqa: BLE001
+            return name
+        if not equal:
+            return name + ":unequal-though-structurally-equal"
+        extra = ignored_aspects(x, y) - KNOWN_IGNORED[name]
+        if extra:
+            return name + ":ignores-" + "+".join(sorted(extra))
+    return name
+
+
+def own_family(o):
+    """'Polynomial' / 'Rational' when `o` is an instance of that stock legacy class (or a subclass)"""
+    if isinstance(o, p.Expression):
+        for c in type(o).__mro__:
+            if c.__name__ in OWN_INIT_ARGS and c.__module__.startswith("pymbolic."):
+                return c.__name__
+    return None
+
+
+def hash_law(a, b):
+    """`a == b` with different hashes, blamed on the innermost pair of corresponding parts that is
+    `==` with different hashes.  Not reported here: two instances of DIFFERENT classes of one stock
+    legacy family (a subclass instance equals a base-class instance and hashes differently: known
+    findings `eq-not-structural:Polynomial.__eq__`, `equal-but-hash-differs:Rational.__eq__:subclass`,
+    and these pairs are reported by the structural check below)."""
+    def differs(x, y):
+        try:
+            return bool(x == y) and hash(x) != hash(y)
+        except Exception:       # noqa: BLE001
+            return False
+
+    def parts(x, y):
+        if isinstance(x, p.Expression) and isinstance(y, p.Expression):
+            fx, fy = C.fields_of(x), C.fields_of(y)
+            return list(zip(fx, fy)) if len(fx) == len(fy) else []
+        if isinstance(x, tuple) and isinstance(y, tuple) and len(x) == len(y):
+            return list(zip(x, y))
+        if isinstance(x, Mapping) and isinstance(y, Mapping):
+            return [(v, y[k]) for k, v in x.items() if k in y]
+        return []
+
+    if not differs(a, b):
+        return None
+    x, y = a, b
+    while True:
+        nxt = next(((u, v) for u, v in parts(x, y) if differs(u, v)), None)
+        if nxt is None:
+            break
+        x, y = nxt
+    if type(x) is not type(y) and own_family(x) is not None and own_family(x) == own_family(y):
+        return None
+    who = culprit(x) if isinstance(x, p.Expression) else (
+        culprit(y) if isinstance(y, p.Expression) else type(x).__name__)
+    return Failure(f"equal-but-hash-differs:{who}", f"{x!r} == {y!r} with different hashes (inside {a!r} == {b!r})")
 
 
 def triple_oracle(objs, fresh):
     """objs: Expression objects; fresh(i): a separately built object with the same source"""
     n = len(objs)
     first_hash = [hash(o) for o in objs]
+    for a in objs:
+        for b in objs:
+            f = hash_law(a, b)
+            if f is not None:
+                return f
     eq = {}
     for i, a in enumerate(objs):
         for j, b in enumerate(objs):
@@ -462,6 +583,249 @@ class TableTriples(TripleStream):
     """generic objects over every class of the regenerated table"""
     name = "class-table-triples"
     wire = "obj"
+
+# }}}
+
+
+# {{{ hand-written __eq__ / __hash__ (Polynomial, Rational, their subclasses) among numbers and nodes
+
+def _rat(cls, n, d):
+    """an instance with the two init args set directly (unnormalised fractions included)"""
+    o = cls.__new__(cls)
+    o.Numerator, o.Denominator = n, d
+    return o
+
+
+def own_alphabet():
+    """(numbers, ordinary nodes, rationals, polynomials)"""
+    from pymbolic.polynomial import Polynomial
+    from pymbolic.rational import Rational
+    R = lambda n, d: _rat(Rational, n, d)        # noqa: E731
+    S = lambda n, d: _rat(C.SubRat, n, d)        # noqa: E731
+    sx1 = p.Sum((X, 1))
+    nums = [0, 1, 2, -1, 1.0, 2.0, 0.5, True, False]
+    plain = [X, Y, sx1, p.Sum((X, 1.0)), p.Sum((X, True)), p.Product((2, X)), p.Call(F, (X,)),
+             p.Quotient(X, 1), C.LBase(X), C.MVar("x", 1), C.DMid(X, 1)]
+    rats = [R(X, 1), R(X, 1.0), R(X, True), R(X, 2), R(X, 2.0), R(Y, 2), R(2, 1), R(2.0, 1.0),
+            R(1, 2), R(2, 4), R(1, 1), R(True, 1), R(0, 1), R(0, 2), R(sx1, 1), R(sx1, 3),
+            R(R(X, 1), 1), R(R(X, 2), 1), R(R(2, 1), 1), R(C.LBase(X), 1),
+            S(X, 1), S(X, 2), S(2, 1), S(R(X, 1), 1)]
+    polys = [Polynomial(X, ((0, 1),)), Polynomial(X, ((0, 1.0),)), Polynomial(X),
+             Polynomial(X, ((1, 1),), 2), Polynomial(Y), Polynomial(X, ((1, 2),)),
+             Polynomial(X, ((0, 1), (2, Y))), Polynomial(X, ()), Polynomial(R(X, 1)),
+             Polynomial(X, ((1, R(1, 1)),)), Polynomial(sx1, ((1, 1),)),
+             C.SubPoly(X), C.SubPoly(X, ((0, 1),)), C.SubPoly(R(X, 1)), C.SubPoly(X, ((1, 1),), 2)]
+    return nums, plain, rats, polys
+
+
+def gen_own_cases(rng, tier):
+    """lists of 2-3 values: numbers, ordinary nodes, Rational / SubRat / Polynomial / SubPoly
+    instances (unnormalised fractions, nested ones), the same below ordinary parents"""
+    from pymbolic.polynomial import Polynomial
+    from pymbolic.rational import Rational
+    nums, plain, rats, polys = own_alphabet()
+    alpha = nums + plain + rats + polys
+    out = []
+    # exhaustive unordered pairs (each case answers both orders and both diagonals)
+    for i, a in enumerate(alpha):
+        for b in alpha[i:]:
+            if a in nums and b in nums:
+                continue
+            out.append([a, b])
+    # every class of the table on the right of a Rational / Polynomial
+    for cls in C.all_expression_classes():
+        inst = instances(cls)
+        if inst:
+            out.append([_rat(Rational, inst[0], 1), inst[0], _rat(Rational, inst[0], 2)])
+            out.append([Polynomial(inst[0]), inst[0]])
+    # what `Rational(other)` cannot divide: the comparison raises
+    for r in (rats[0], rats[3], rats[6], p.Sum((rats[3], 1))):
+        for v in ("abc", None, (1, 2), (X,), {"k": 1}):
+            out.append([r, v])
+    # outside the model: a denominator that is not a number, an int no float holds
+    out += [[_rat(Rational, X, Y), X], [_rat(Rational, 2 ** 53 + 1, 1), 2 ** 53 + 1],
+            [_rat(Rational, 2 ** 53, 1), 2 ** 53], [_rat(Rational, Polynomial(X), 1), Polynomial(X)]]
+    # triples (transitivity), also across a subclass
+    out += [[rats[16], rats[0], rats[20]], [polys[0], polys[12], polys[1]],
+            [polys[2], polys[13], polys[8]], [rats[6], 2, 2.0], [rats[10], 1, True]]
+    n_tri = 500 if tier == "quick" else 8000
+    for _ in range(n_tri):
+        out.append([rng.choice(alpha), rng.choice(rats + polys), rng.choice(alpha)])
+    # below ordinary parents
+    ws = wrappers()
+    n_nest = 700 if tier == "quick" else 10000
+    for _ in range(n_nest):
+        w = rng.choice(ws)
+        a = rng.choice(rats + polys)
+        b = rng.choice(alpha) if rng.random() < 0.7 else rng.choice(rats + polys)
+        w2 = rng.choice(ws) if rng.random() < 0.15 else w
+        try:
+            t = [w(a), w2(b)]
+            if rng.random() < 0.3:
+                t.append(w(rng.choice(alpha)))
+            out.append(t)
+        except Exception:       # noqa: BLE001
+            pass
+    return out
+
+
+def _cmp_char(fn):
+    try:
+        r = fn()
+    except TypeError:
+        return "R"
+    except Exception:       # noqa: BLE001
+        return "E"
+    if r is True:
+        return "1"
+    if r is False:
+        return "0"
+    return "N"
+
+
+def own_matrices(ss):
+    """`==`, `!=`, hash equality of equal values, dict lookup for all ordered pairs; the two sides
+    of every pair are separately built objects"""
+    A_ = [C.sx_to_obj(loads(s)) for s in ss]
+    B_ = [C.sx_to_obj(loads(s)) for s in ss]
+    eq, ne, hs, fd = [], [], [], []
+    for a in A_:
+        for b in B_:
+            e = _cmp_char(lambda: a == b)       # noqa: B023
+            eq.append(e)
+            ne.append(_cmp_char(lambda: a != b))        # noqa: B023
+            if e == "1":
+                hs.append(_cmp_char(lambda: hash(a) == hash(b)))        # noqa: B023
+            else:
+                hs.append("-")
+            fd.append(_cmp_char(lambda: b in {a: 1}))       # noqa: B023
+    return f'(r "{"".join(eq)}" "{"".join(ne)}" "{"".join(hs)}" "{"".join(fd)}")'
+
+
+def own_kind(s):
+    h = loads(s)
+    if isinstance(h, list) and h and h[0] == "inst":
+        return h[1] if h[1] in ("Rational", "SubRat", "Polynomial", "SubPoly") else "node"
+    return "builtin"
+
+
+class OwnEqStream(TripleStream):
+    """values over Rational / SubRat / Polynomial / SubPoly, numbers and ordinary nodes (also
+    nested): `==`, `!=`, hash equality, dict lookup of the real objects vs `ownEq` / `ownNe` /
+    `hashX` / `ownFinds` (lean/PV/Model/EqHashOwn.lean) run on the records that extract/classes.py
+    reads from the source of the hand-written methods"""
+    name = "own-eq-triples"
+    wire = "obj"
+
+    def cases(self, rng, tier):
+        seen = set()
+        for t in gen_own_cases(rng, tier):
+            try:
+                if any(C.has_nan_const(o) or C.has_list(o) for o in t):
+                    continue
+                ss = [obj_s(o) for o in t]
+            except Exception:       # noqa: BLE001
+                continue
+            key = " ".join(ss)
+            if key in seen:
+                continue
+            seen.add(key)
+            yield {"objs": ss}
+
+    def request(self, pl):
+        return f"(c01-own {' '.join(pl['objs'])})"
+
+    def run_impl(self, pl):
+        return own_matrices(pl["objs"])
+
+    def agree(self, model, impl, pl):
+        if "(noclaim)" in model:
+            return "trivial"
+        try:
+            m = [str(x) for x in loads(model)[1:]]
+            i = [str(x) for x in loads(impl)[1:]]
+        except Exception:       # noqa: BLE001
+            return "diff"
+        if len(m) != 4 or len(i) != 4 or any(len(a) != len(b) for a, b in zip(m, i)):
+            return "diff"
+        for k in range(len(m[0])):
+            if m[0][k] == "?":
+                continue            # this pair is outside the model (see Res.unmodelled)
+            if any(m[r][k] != i[r][k] for r in range(4)):
+                return "diff"
+        return "ok"
+
+    def oracle(self, pl):
+        objs = [C.sx_to_obj(loads(s)) for s in pl["objs"]]
+        idx = [k for k, o in enumerate(objs) if isinstance(o, p.Expression)]
+        if not idx:
+            return None
+        return triple_oracle([objs[k] for k in idx],
+                             lambda k: C.sx_to_obj(loads(pl["objs"][idx[k]])))
+
+    def stats(self, pl, mo, io, acc):
+        kinds = sorted({own_kind(s) for s in pl["objs"]})
+        d = acc.setdefault("kinds", {})
+        d["+".join(kinds)] = d.get("+".join(kinds), 0) + 1
+        try:
+            m = str(loads(io)[1])
+        except Exception:       # noqa: BLE001
+            m = ""
+        for ch, name in (("1", "equal"), ("0", "unequal"), ("R", "raises")):
+            acc[name] = acc.get(name, 0) + m.count(ch)
+        if mo is not None:
+            if "noclaim" in mo:
+                acc["model_abstains"] = acc.get("model_abstains", 0) + 1
+            else:
+                acc["pairs_outside_model"] = acc.get("pairs_outside_model", 0) + mo.split('"')[1].count("?")
+
+
+RAT_NUMS = [X, Y, 3, -3, 0, True, False, 2.5, p.Sum((X, 1)), "abc", None, (1, 2)]
+RAT_DENS = [1, 2, -2, -1, 0, True, False, 2.0, 4, -4, 10 ** 6, X, "abc", None]
+
+
+class RationalInitStream(Stream):
+    """`Rational(numerator, denominator)`: what the constructor stores (it divides both by the unit
+    of the denominator and reduces nothing) or which exception it raises, vs `rationalInit`"""
+    name = "rational-init"
+
+    def cases(self, rng, tier):
+        from pymbolic.rational import Rational
+        nums = RAT_NUMS + [_rat(Rational, X, 2)]
+        for n in nums:
+            for d in RAT_DENS:
+                yield {"num": obj_s(n), "den": obj_s(d)}
+
+    def request(self, pl):
+        return f"(c01-rat-init {pl['num']} {pl['den']})"
+
+    def run_impl(self, pl):
+        from pymbolic.rational import Rational
+        n, d = C.sx_to_obj(loads(pl["num"])), C.sx_to_obj(loads(pl["den"]))
+        try:
+            r = Rational(n, d)
+        except Exception as ex:     # noqa: BLE001
+            return f"(err {type(ex).__name__})"
+        a = r.__getinitargs__()
+        return f"(stored {obj_s(a[0])} {obj_s(a[1])})"
+
+    def oracle(self, pl):
+        from pymbolic.rational import Rational
+        n, d = C.sx_to_obj(loads(pl["num"])), C.sx_to_obj(loads(pl["den"]))
+        try:
+            a, b = Rational(n, d), Rational(C.sx_to_obj(loads(pl["num"])), C.sx_to_obj(loads(pl["den"])))
+        except Exception:       # noqa: BLE001
+            return None
+        if not (a == b) or not (b == a) or (a != b) or hash(a) != hash(b) or b not in {a}:
+            return Failure("not-reflexive:Rational.__eq__", f"Rational({n!r}, {d!r}) built twice")
+        return None
+
+    def nontrivial_key(self, pl, model, impl):
+        return pl["num"] + " / " + pl["den"]
+
+    def stats(self, pl, mo, io, acc):
+        k = io.split(" ")[0].strip("()") if not io.startswith("(err") else io
+        acc[k] = acc.get(k, 0) + 1
 
 # }}}
 
@@ -1072,6 +1436,249 @@ def valid_history(pool, ops):
 # }}}
 
 
+# {{{ interpreter modes: default (`__debug__` true) and `python -O`
+
+def launch_mode_worker(optimized, job):
+    """run harness/c01_worker.py on `job` in a fresh interpreter (`-O` when `optimized`); both modes
+    get the same fixed PYTHONHASHSEED (hash values are compared between them); -> its result dict"""
+    import os
+    import subprocess
+    import sys
+    import tempfile
+
+    from ..leanio import VERIF
+    pp = os.pathsep.join([VERIF] + [x for x in os.environ.get("PYTHONPATH", "").split(os.pathsep)
+                                    if x and x != VERIF])
+    seed = os.environ.get("PYTHONHASHSEED", "0")
+    env = {"PYTHONHASHSEED": seed if seed.isdigit() else "0", "PYTHONPATH": pp,
+           "PATH": os.environ.get("PATH", "/usr/bin:/bin"), "HOME": os.environ.get("HOME", "/tmp")}
+    with tempfile.TemporaryDirectory(prefix="c01-") as td:
+        jobfile, outfile = os.path.join(td, "job.json"), os.path.join(td, "out.json")
+        with open(jobfile, "w") as f:
+            json.dump(job, f)
+        cmd = [sys.executable] + (["-O"] if optimized else []) + ["-m", "harness.c01_worker", jobfile, outfile]
+        pr = subprocess.run(cmd, env=env, cwd=VERIF, capture_output=True, text=True, timeout=1500)
+        if pr.returncode != 0:
+            raise RuntimeError(f"c01 worker (optimized={optimized}) failed: {pr.stderr[-1500:]}")
+        with open(outfile) as f:
+            res = json.load(f)
+    if res["debug"] == optimized:
+        raise RuntimeError("c01 worker did not run in the requested interpreter mode")
+    return res
+
+
+def rebindable_expr_attrs(o):
+    """fields of `o` holding an expression or a number (rebinding them to another expression
+    leaves an object that can be rebuilt from source)"""
+    names = C.field_names_of(type(o))
+    vals = C.fields_of(o)
+    return [n for n, v in zip(names, vals)
+            if isinstance(v, (p.Expression, int, float)) and not isinstance(v, bool)]
+
+
+class ModeBatch:
+    """all payloads of one run of the mode stream, executed once in two worker processes"""
+
+    def __init__(self):
+        self.payloads = []
+        self.results = None
+        self.launches = 0
+
+    def job(self, payloads):
+        job = {"attr": [], "hist": [], "objs": []}
+        index = []
+        for pl in payloads:
+            k = pl["k"]
+            index.append((k, len(job[k])))
+            if k == "attr":
+                job[k].append({"obj": pl["obj"], "attr": pl["attr"], "op": pl["op"]})
+            elif k == "hist":
+                job[k].append({"pool": pl["pool"], "ops": pl["ops"], "oracle": pl["oracle"]})
+            else:
+                job[k].append({"objs": pl["objs"]})
+        return job, index
+
+    def run(self, payloads):
+        job, index = self.job(payloads)
+        res = {}
+        need = {pl["debug"] for pl in payloads if pl["k"] != "objs"}
+        if any(pl["k"] == "objs" for pl in payloads):
+            need |= {True, False}
+        for debug in sorted(need):
+            res[debug] = launch_mode_worker(not debug, job)
+            self.launches += 1
+        return res, index
+
+    def lookup(self, pl):
+        """-> (result of the default-mode worker or None, of the -O worker or None, kind, position)"""
+        key = json.dumps(pl, sort_keys=True)
+        if self.results is None and self.payloads:
+            self.results = self.run(self.payloads)
+            self.keys = {json.dumps(q, sort_keys=True): i for i, q in enumerate(self.payloads)}
+        if self.results is not None and key in self.keys:
+            res, index = self.results
+            k, pos = index[self.keys[key]]
+        else:       # replay / shrinking: a batch of one
+            res, index = self.run([pl])
+            k, pos = index[0]
+        return res.get(True), res.get(False), k, pos
+
+
+MODES = ModeBatch()
+
+
+class ModeStream(Stream):
+    """the same attempts, histories and comparisons in a default-mode interpreter and under
+    `python -O` (worker processes, harness/c01_worker.py):
+      attr   setattr / delattr on every field of every class, in both modes, vs
+             `frozenFor` on `ClassTable.inMode` (the decorator's `frozen=__debug__` read from source)
+      hist   histories under `-O`: with a rebinding that goes through (hash, rebind, rebuild, compare:
+             the stale cached hash) and random ones without rebinding attempts, vs `run1D … false`
+      objs   `==`, `!=`, hash equality AND the hash values of untouched objects: the two modes must
+             agree with each other and with the model (hash values: unless a type object is hashed)"""
+    name = "interpreter-modes"
+
+    def cases(self, rng, tier):
+        out = []
+        fs = FrozenStream()
+        for pl in fs.cases(rng, tier):
+            for debug in (True, False):
+                out.append({"k": "attr", "debug": debug, **pl})
+        # -O: a field of a hashed object is rebound, then the object is compared with a fresh one
+        for cls in C.all_expression_classes():
+            if special_instances(cls) is not None:
+                continue
+            inst = instances(cls)
+            if not inst:
+                continue
+            s = obj_s(inst[0])
+            for a in rebindable_expr_attrs(inst[0]):
+                ops = [["hash", 1], ["setattr", 1, a, SET_VALUES[1]], ["rebuild", 1], ["eq", 1, 2],
+                       ["member", 2, 1], ["ne", 2, 1], ["hash", 2], ["dset", 2, 5], ["dget", 1], ["eq", 0, 1]]
+                for debug in (True, False):
+                    out.append({"k": "hist", "debug": debug, "oracle": False, "pool": [s, s], "ops": ops})
+        # -O: random histories without rebinding attempts
+        n = 60 if tier == "quick" else 1500
+        g = ExprGen(rng, lists=False, foreign=False, cse=0.1, floats=0.05, malformed=0.0)
+        for _ in range(n):
+            h = gen_history(rng, g, 25 if tier == "quick" else 120)
+            ops = h["ops"]
+            while True:
+                cut = next((i for i, op in enumerate(ops) if op[0] in ("setattr", "delattr")), None)
+                if cut is None:
+                    break
+                ops = ops[:cut] + ops[cut + 1:]
+            if ops and valid_history(h["pool"], ops):
+                out.append({"k": "hist", "debug": False, "oracle": True, "pool": h["pool"], "ops": ops})
+        # untouched objects in both modes
+        seen = set()
+        n_obj = 250 if tier == "quick" else 4000
+        trip = gen_triples(rng, "quick")
+        rng.shuffle(trip)
+        for t in trip:
+            ss = [obj_s(o) for o in t]
+            key = " ".join(ss)
+            if key in seen:
+                continue
+            seen.add(key)
+            out.append({"k": "objs", "debug": None, "objs": ss})
+            if len(seen) >= n_obj:
+                break
+        MODES.payloads = out
+        MODES.results = None
+        return out
+
+    def request(self, pl):
+        if pl["k"] == "attr":
+            cls = loads(pl["obj"])[1]
+            return f'(c01-frozen-mode {b(pl["debug"])} "{cls}" "{pl["attr"]}")'
+        if pl["k"] == "hist":
+            return (f"(c01-hist-mode {b(pl['debug'])} 3 ({' '.join(pl['pool'])}) "
+                    f"({' '.join(op_req(op) for op in pl['ops'])}))")
+        return f"(c01-objs {' '.join(pl['objs'])})"
+
+    def run_impl(self, pl):
+        dflt, opt, k, pos = MODES.lookup(pl)
+        if k == "attr":
+            return (dflt if pl["debug"] else opt)["attr"][pos]
+        if k == "hist":
+            return (dflt if pl["debug"] else opt)["hist"][pos]["reply"]
+        a, o = dflt["objs"][pos], opt["objs"][pos]
+        if a["m"] != o["m"]:
+            return f"(modes-differ {a['m']} {o['m']})"
+        # hash VALUES are comparable between the two processes (same PYTHONHASHSEED) unless a type
+        # object is hashed (`NaN(data_type)`: `hash(int)` is address-based)
+        if a["hashes"] != o["hashes"] and not any("<type:" in s for s in pl["objs"]):
+            return "(modes-differ hash-values)"
+        return a["m"]
+
+    def agree(self, model, impl, pl):
+        if "(noclaim)" in model:
+            return "trivial"
+        if pl["k"] == "hist":
+            try:
+                return "ok" if normalise(model, pl) == normalise(impl, pl) else "diff"
+            except Exception:       # noqa: BLE001
+                return "diff"
+        return "ok" if model == impl else "diff"
+
+    def oracle(self, pl):
+        dflt, opt, k, pos = MODES.lookup(pl)
+        if k == "attr":
+            if not pl["debug"]:
+                return None          # the property speaks about the default mode only
+            res = dflt["attr"][pos]
+            o = C.sx_to_obj(loads(pl["obj"]))
+            isfield = pl["attr"] in C.field_names_of(type(o))
+            if res.startswith("(frozen false") and (isfield or pl["op"] == "del"):
+                return Failure(rebind_key(type(o)),
+                               f"default mode (worker process): {pl['op']}attr({pl['obj']}, {pl['attr']!r}) went through")
+            return None
+        if k == "hist":
+            f = (dflt if pl["debug"] else opt)["hist"][pos]["fail"]
+            return None if f is None else Failure(f[0], f"under python -O: {f[1]}", pl)
+        for mode, r in (("default mode", dflt), ("python -O", opt)):
+            f = r["objs"][pos]["fail"]
+            if f is not None:
+                return Failure(f[0], f"{mode} (worker process): {f[1]}", pl)
+        if dflt["objs"][pos]["m"] != opt["objs"][pos]["m"]:
+            return Failure("modes-disagree-on-equality", f"{pl['objs']}: default {dflt['objs'][pos]['m']}, "
+                           f"-O {opt['objs'][pos]['m']}")
+        return None
+
+    def shrink(self, pl):
+        if pl["k"] == "hist":
+            ops = pl["ops"]
+            for cut in range(len(ops)):
+                cand = ops[:cut] + ops[cut + 1:]
+                if valid_history(pl["pool"], cand):
+                    yield {**pl, "ops": cand}
+        elif pl["k"] == "objs" and len(pl["objs"]) > 2:
+            ss = pl["objs"]
+            for i in range(len(ss)):
+                for j in range(len(ss)):
+                    if i != j:
+                        yield {**pl, "objs": [ss[i], ss[j]]}
+
+    def nontrivial_key(self, pl, model, impl):
+        return json.dumps(pl, sort_keys=True)
+
+    def stats(self, pl, mo, io, acc):
+        k = pl["k"] + ("" if pl["debug"] is None else (":default" if pl["debug"] else ":-O"))
+        acc[k] = acc.get(k, 0) + 1
+        if pl["k"] == "attr":
+            d = acc.setdefault("attr_outcomes", {})
+            key = ("default " if pl["debug"] else "-O ") + io
+            d[key] = d.get(key, 0) + 1
+        if pl["k"] == "hist" and not pl["debug"]:
+            acc["rebinds_under_O"] = acc.get("rebinds_under_O", 0) + io.count("(attrset true")
+            acc["stale_eq_false_under_O"] = acc.get("stale_eq_false_under_O", 0) + (
+                1 if "(attrset true" in io and "(eq false" in io else 0)
+        acc["worker_launches"] = MODES.launches
+
+# }}}
+
+
 # {{{ probes: known findings and repaired defects, replayed on the real code
 
 def probe_known():
@@ -1112,6 +1719,16 @@ def probe_known():
     h4 = hash(C.SubPoly(X, ((1, 1),))) == hash(Polynomial(X, ((1, 1),)))
     res.append(("eq-not-structural:Polynomial.__eq__", bool(e3 or e4),
                 f"unit 1 vs 2 equal: {e3}; subclass instance equal: {e4}, hashes equal: {h4}"))
+    # Rational.__eq__ accepts subclass instances, Rational.__hash__ hashes the class name
+    ra, sa = Rational(X, 2), _rat(C.SubRat, X, 2.0)
+    e5 = (ra == sa) and (sa == ra)
+    h5 = hash(ra) == hash(sa)
+    k5 = sa in {ra: 1}
+    t1, t2, t3 = _rat(Rational, _rat(Rational, X, 1), 1), _rat(Rational, X, 1), _rat(C.SubRat, X, 1)
+    nontrans = (t1 == t2) and (t2 == t3) and not (t1 == t3)
+    res.append(("equal-but-hash-differs:Rational.__eq__:subclass", bool(e5 and not h5),
+                f"Rational(x, 2) == SubRat(x, 2): {e5}, hashes equal: {h5}, found as dict key: {k5}; "
+                f"non-transitive triple across the subclass: {nontrans}"))
     return res
 
 # }}}
@@ -1127,15 +1744,21 @@ PROP = Prop(
     title="Expression nodes: structural equality, consistent hashing, immutability",
     lean_targets=["PV.Properties.C01"],
     extractors=[extract],
-    streams=[StockTriples(), TableTriples(), FrozenStream(), HistoryStream()],
+    streams=[StockTriples(), TableTriples(), OwnEqStream(), RationalInitStream(), FrozenStream(),
+             HistoryStream(), ModeStream()],
     probes=[probe_known],
     trusted_base=[
         "Lean 4.33 kernel; axioms propext, Classical.choice, Quot.sound only",
         "extract/classes.py: reads the generated method source of every decorated class with ast "
         "(an unrecognised shape is an extraction error, never a default)",
-        "CPython's hash of builtins, tuple hashing, dict / set lookup, pickle and the frozen "
-        "dataclass __setattr__/__delattr__ are runtime: modelled (HashParams with CPython's "
-        "contract, memberC / dictFind, frozenFor) and validated by the correspondence only",
+        "extract/classes.py: reads the SOURCE of the hand-written __eq__/__ne__/__hash__/"
+        "__getinitargs__/__init__ of Polynomial and Rational (two recognised shapes; anything else "
+        "is an extraction error) and the frozen= keyword of the dataclass(...) call in expr_dataclass",
+        "CPython's hash of builtins, tuple hashing, dict / set lookup, pickle, the frozen "
+        "dataclass __setattr__/__delattr__ and the dispatch of == (proper subclass on the right "
+        "first, NotImplemented of builtins, tuple comparison, short-circuit and) are runtime: "
+        "modelled (HashParams with CPython's contract, memberC / dictFind, frozenFor, eqF) and "
+        "validated by the correspondence only",
         "harness/c01_classes.py (generic field reader, slot reader, struct_eq reference)",
     ],
     level_text="Lean theorems, generic over every class table satisfying the decidable condition Ok "
@@ -1147,20 +1770,34 @@ PROP = Prop(
                "of hash / == / != / in / dict / copy / mapper / pickle operations in which no field "
                "is rebound every cached hash stays coherent and every answer equals the answer on "
                "fresh objects. Ok of the table regenerated from the working tree is re-proved by "
-               "`decide` on every run (ok_current).",
+               "`decide` on every run (ok_current). Hand-written __eq__/__hash__ of Polynomial and "
+               "Rational (records read from their source, OwnOk re-proved by decide: own_current): "
+               "without such instances inside, == with CPython's full dispatch IS the generated "
+               "method (own_conservative); over ordinary attribute values the answer is the pairwise "
+               "== of the compared attributes whatever the classes and other init args "
+               "(own_eq_inst_iff: an equivalence; equal => equal hash within one class); Rational "
+               "against nodes and numbers (rational_eq_node / _number, hashes agree when equal), "
+               "raises on non-numbers; witnesses for the asymmetry, the subclass hash mismatch and "
+               "non-transitivity. Interpreter mode is a parameter of the setattr model: "
+               "frozen_rejects_default, optimized_never_rejects, optimized_rebind_stale_cex, "
+               "optimized_untouched_same.",
     level_note="Partial: CPython's hashing, dict/set and pickling are parameters validated by "
                "correspondence; the histories' object model is a forest (sharing of children "
                "between a copy and its source is not represented: below a shared node only the "
-               "top-level slot is compared); float nan constants are excluded (nan != nan); -O "
-               "mode (fields not frozen) is not exercised in the quick tier; classes with a "
-               "hand-written __eq__ (Polynomial, Rational) are covered by the oracle only.",
+               "top-level slot is compared); float nan constants are excluded (nan != nan); the "
+               "hand-written methods are proved about at ONE level over ordinary attribute values "
+               "(nested Rationals / polynomials over Rationals: witnesses and correspondence); "
+               "the model abstains on Rational == Polynomial (Polynomial.__truediv__ inside the "
+               "coercion), on ints beyond 2^53 inside the coercion and on Rationals whose "
+               "denominator is not a number; histories do not contain Polynomial / Rational.",
     technique="Lean 4: decidable table condition re-checked on regenerated tables + generic theorems "
               "over tables and hash parameters + invariant proof over histories; differential "
               "correspondence; independent structural oracle",
     design_ref="DESIGN.md §4 C01",
     assumptions=[
         "no float nan constants inside expressions (NaN nodes are inside)",
-        "default interpreter mode (__debug__ true)",
+        "interpreter mode: default and -O are both exercised (worker processes); the harness itself "
+        "runs in default mode",
         "__getinitargs__ of a legacy class is a function of the instance's state",
     ],
 )
